@@ -120,7 +120,6 @@ func (r *Router) WrapHTTPHandlers(preHandlers ...func(h http.Handler) http.Handl
 func (r *Router) ServeHTTP(res http.ResponseWriter, req *http.Request) {
 	// get new context
 	ctx := r.ctxPool.Get().(*Context)
-	ctx = verifPoolGet(r, ctx)
 	// init and reset ctx
 	ctx.Init(res, req)
 	verifYield("serve.init")
@@ -131,7 +130,6 @@ func (r *Router) ServeHTTP(res http.ResponseWriter, req *http.Request) {
 	// ctx.Reset()
 	// release ctx
 	verifYield("serve.done")
-	ctx = verifPoolPut(r, ctx)
 	r.ctxPool.Put(ctx)
 }
 
